@@ -88,7 +88,7 @@ def gen_spec(rng, solver, df, pen, seed, coords):
                 alpha_frac=float(rng.choice([0.01, 0.1, 0.5, 1.2])),
                 positive=bool(rng.integers(0, 2)) if pen in K.POSFLAG + ["WeightedGroupL2"] else False,
                 zero_weights=bool(rng.integers(0, 2)), knobs=knobs,
-                group_style=str(rng.choice(["contig", "perm"])), n_tasks=int(rng.integers(1, 4)),
+                group_style=str(rng.choice(["contig", "perm", "trap"])), n_tasks=int(rng.integers(1, 4)),
                 warm=str(rng.choice(["cold", "zero", "dense", "sparse"])))
     if pen in ("MCPenalty", "WeightedMCPenalty", "SCAD", "BlockMCPenalty", "BlockSCAD") and rng.random() < 0.5:
         spec["pen_opts"] = dict(gamma=float(rng.choice([3.0, 10.0, 50.0])))
